@@ -25,6 +25,7 @@ package c17
 
 import (
 	"context"
+	"encoding/json"
 	"fmt"
 	"math/rand"
 	"os"
@@ -82,6 +83,24 @@ func (w wireHost) class() string {
 		return "plain"
 	}
 	return strings.Join(w.Features, "+")
+}
+
+// coarse names the kinds of decoration of the address (for signatures: one per kind of
+// spelling, not one per combination of IPv4/IPv6 payloads and Forge marker flavours).
+func (w wireHost) coarse() string {
+	var p []string
+	for _, g := range []string{"case", "dot", "port-in-address", "tcpshield", "forge"} {
+		for _, f := range w.Features {
+			if strings.Contains(f, g) {
+				p = append(p, g)
+				break
+			}
+		}
+	}
+	if len(p) == 0 {
+		return "plain"
+	}
+	return strings.Join(p, "+")
 }
 
 func (w wireHost) has(f string) bool {
@@ -456,7 +475,7 @@ func runE2EInitial(r *lib.Run, nConfigs, perConfig int) {
 						if ev.evName == "" && len(rf.forced[rf.host]) > 0 && len(c.Try) == 0 {
 							kind = "forced-host-list-not-found"
 						}
-						r.Violation("e2e-initial:choice-differs-from-reference:"+kind+":"+wh.class(),
+						r.Violation("e2e-initial:choice-differs-from-reference:"+kind+":"+wh.coarse(),
 							"the initial server Gate chose for a wire-level handshake differs from the reference choice (forced-host list of the cleaned address, else try list; first registered entry)", wit)
 					case gotBackend != ev.evName || nBackends > 1:
 						r.Violation("e2e-initial:login-reached-another-backend-than-the-initial-choice", fmt.Sprintf("initial choice %q, login received by %q (%d backend connections)", ev.evName, gotBackend, nBackends), wit)
@@ -513,6 +532,10 @@ type chainCase struct {
 	Scripts    map[string][]string `json:"scripts"` // behaviour of the n-th connection; beyond the script: refuse
 	Unregister string              `json:"unregistered_before_login,omitempty"`
 	KeepOpen   bool                `json:"kicking_backends_keep_their_end_open"`
+	// KickJoinCloses: the backend that kicks right after JoinGame closes its end at once (else
+	// it leaves closing to the proxy). Such a case has exactly one connection of that kind and
+	// no kick later in play, see genChainCase.
+	KickJoinCloses bool `json:"kick_right_after_join_closes_at_once"`
 }
 
 func (c chainCase) family() string {
@@ -530,12 +553,12 @@ func (c chainCase) mode(server string, n int) string {
 	return mRefuse
 }
 
-var chainProtocols = []int{47, 340, 758, 763, 764, 765, 767, 770, 775}
-
 func genChainCase(rng *rand.Rand) chainCase {
-	c := chainCase{Proto: chainProtocols[rng.Intn(len(chainProtocols))], Scripts: map[string][]string{}}
+	c := chainCase{Scripts: map[string][]string{}}
 	if rng.Intn(2) == 0 { // both families equally often
 		c.Proto = []int{764, 765, 767, 770, 775}[rng.Intn(5)]
+	} else {
+		c.Proto = []int{47, 340, 758, 763}[rng.Intn(4)]
 	}
 	n := 2 + rng.Intn(4)
 	perm := rng.Perm(len(baseServers))
@@ -576,13 +599,37 @@ func genChainCase(rng *rand.Rand) chainCase {
 	c.ViaForced = rng.Intn(2) == 0
 	c.Address = "lobby.example.net"
 	if c.ViaForced {
-		c.Address = spellWireHost(rng, "play.example.com").Text
-		if strings.Contains(c.Address, "\x00FML\x00") || strings.Contains(c.Address, "\x00FORGE") {
+		wh := spellWireHost(rng, "play.example.com")
+		c.Address = wh.Text
+		if wh.has("port-in-address") || strings.Contains(c.Address, "\x00FML\x00") || strings.Contains(c.Address, "\x00FORGE") {
+			// a port inside the address field is judged (leniently) by the e2e-initial class only;
 			// a legacy Forge client's fallback is a property of the Forge handshake, not of C17
 			c.Address = "Play.Example.Com."
 		}
 	}
 	c.KeepOpen = rng.Intn(3) == 0
+	c.KickJoinCloses = rng.Intn(3) == 0
+	if c.KickJoinCloses {
+		// A backend that sends JoinGame, a kick and closes at once: the proxy may notice the
+		// lost connection while it completes the join; Gate then handles that one failure
+		// twice (from inside the join and again when the connection request fails: a lead
+		// documented with C16, proposed_fixes/C16-in-flight-slot.md), and if the player loses
+		// its next server before the second handling runs, two fallback chains race. The
+		// statement is clear (and checked) when that second handling finds the player settled:
+		// one such connection per case, nothing else kicks after a join.
+		seen := false
+		for _, s := range c.List {
+			for j, m := range c.Scripts[s] {
+				if m == mKickJoin && !seen {
+					seen = true
+					continue
+				}
+				if m == mKickJoin || m == mKickLater {
+					c.Scripts[s][j] = []string{mAccept, mKickLogin, mRefuse}[rng.Intn(3)]
+				}
+			}
+		}
+	}
 	return c
 }
 
@@ -591,12 +638,31 @@ type chainWant struct {
 	Modes      []string // behaviour of each expected connection
 	Outcome    string   // connected:<server> | disconnected
 	LastReason string   // kick reason of the failure after which no server remained ("" if it had none)
-	Chains     int
-	Joins      int
+	// ReasonOptional: the last failure was a kick by a backend that closed its end right after
+	// JoinGame; the proxy may notice the lost connection before it reads the kick.
+	ReasonOptional bool
+	Chains         int
+	Joins          int
+	// JoinBranches: for every kick-right-after-join connection on this path, whether the join
+	// counts as completed ("joined") or as a failed connection attempt ("lost").
+	JoinBranches []string
 }
 
-// refChainE2E runs the reference over the scripts.
-func refChainE2E(c chainCase) chainWant {
+func (w chainWant) clone() chainWant {
+	w.Dials = append([]string(nil), w.Dials...)
+	w.Modes = append([]string(nil), w.Modes...)
+	w.JoinBranches = append([]string(nil), w.JoinBranches...)
+	return w
+}
+
+// refChainE2E runs the reference over the scripts and returns every acceptable execution.
+// There is one, except where a backend kicks right after JoinGame and closes its end: the
+// statement does not say whether that join has happened (the player was on that server: the
+// cursor starts over) or the connection attempt failed (the chain goes on); the proxy may
+// see either, depending on whether it notices the closed connection while it is still
+// completing the join. A backend that keeps its end open is read strictly in order (JoinGame
+// is handled completely before the kick is read): the join has happened.
+func refChainE2E(c chainCase) []chainWant {
 	reg := map[string]string{}
 	for _, s := range c.List {
 		if s != "ghost" && s != c.Unregister {
@@ -604,44 +670,65 @@ func refChainE2E(c chainCase) chainWant {
 		}
 	}
 	rf := &ref{try: c.List, registered: reg, fold: true, forced: map[string][]string{}}
-	var w chainWant
-	conn := map[string]int{}
-	cur := rf.next("")
-	if cur == "" {
-		w.Outcome = "disconnected"
-		return w
+	var out []chainWant
+	var walk func(rf ref, conn map[string]int, w chainWant, cur string)
+	fail := func(rf ref, conn map[string]int, w chainWant, cur, reason string, optional bool) {
+		nx := rf.next(cur)
+		rf.current = ""
+		if nx == "" {
+			w.Outcome, w.LastReason, w.ReasonOptional = "disconnected", reason, optional
+			out = append(out, w)
+			return
+		}
+		walk(rf, conn, w, nx)
 	}
-	w.Chains = 1
-	for {
+	walk = func(rf ref, conn0 map[string]int, w chainWant, cur string) {
+		conn := map[string]int{}
+		for k, v := range conn0 {
+			conn[k] = v
+		}
+		w = w.clone()
 		k := conn[cur]
 		conn[cur]++
 		m := c.mode(cur, k)
 		w.Dials = append(w.Dials, cur)
 		w.Modes = append(w.Modes, m)
-		reason := ""
 		switch m {
 		case mAccept:
 			rf.joined(cur)
 			w.Joins++
 			w.Outcome = "connected:" + cur
-			return w
-		case mKickJoin, mKickLater:
+			out = append(out, w)
+		case mKickLater:
 			rf.joined(cur)
 			w.Joins++
 			w.Chains++
-			reason = kickReason(cur, k)
+			fail(rf, conn, w, cur, kickReason(cur, k), false)
+		case mKickJoin:
+			if c.KickJoinCloses {
+				lost := w.clone()
+				lost.JoinBranches = append(lost.JoinBranches, "lost")
+				fail(rf, conn, lost, cur, kickReason(cur, k), true)
+			}
+			if c.KickJoinCloses {
+				w.JoinBranches = append(w.JoinBranches, "joined")
+			}
+			rf.joined(cur)
+			w.Joins++
+			w.Chains++
+			fail(rf, conn, w, cur, kickReason(cur, k), c.KickJoinCloses)
 		case mKickLogin, mKickConfig:
-			reason = kickReason(cur, k)
+			fail(rf, conn, w, cur, kickReason(cur, k), false)
+		default:
+			fail(rf, conn, w, cur, "", false)
 		}
-		nx := rf.next(cur)
-		rf.current = ""
-		if nx == "" {
-			w.Outcome = "disconnected"
-			w.LastReason = reason
-			return w
-		}
-		cur = nx
 	}
+	cur := rf.next("")
+	if cur == "" {
+		return []chainWant{{Outcome: "disconnected"}}
+	}
+	walk(*rf, map[string]int{}, chainWant{Chains: 1}, cur)
+	return out
 }
 
 func kickReason(server string, n int) string { return fmt.Sprintf("kicked-by-%s-conn%d", server, n) }
@@ -677,7 +764,7 @@ func e2eMode(m string) e2e.Mode {
 	return e2e.Accept
 }
 
-func runChainCase(c chainCase, want chainWant) (*chainObs, error) {
+func runChainCase(c chainCase, maxDials int) (*chainObs, error) {
 	h, err := e2e.New(e2e.Options{Mutate: func(cfg *jconfig.Config) {
 		if c.ViaForced {
 			cfg.ForcedHosts = map[string][]string{"play.example.com": c.List}
@@ -699,7 +786,7 @@ func runChainCase(c chainCase, want chainWant) (*chainObs, error) {
 		}
 		s := s
 		b, err := h.AddBackend(s, func(n int) e2e.Behavior {
-			return e2e.Behavior{Mode: e2eMode(c.mode(s, n)), Threshold: -1, KickReason: kickReason(s, n), KickKeepOpen: c.KeepOpen}
+			return e2e.Behavior{Mode: e2eMode(c.mode(s, n)), Threshold: -1, KickReason: kickReason(s, n), KickKeepOpen: (c.mode(s, n) == mKickJoin && !c.KickJoinCloses) || (c.mode(s, n) != mKickJoin && c.KeepOpen)}
 		})
 		if err != nil {
 			return nil, err
@@ -746,7 +833,7 @@ func runChainCase(c chainCase, want chainWant) (*chainObs, error) {
 	_ = cl.HandshakeRaw(wireHandshake(c.Proto, c.Address, 25565, 2), 2)
 	_ = cl.LoginStart(player)
 
-	limit := len(want.Dials) + 6
+	limit := maxDials + 6
 	kicked := map[string]bool{} // server#n kicked by the driver
 	deadline := time.Now().Add(e2e.Watchdog)
 	lastProgress := ""
@@ -775,9 +862,13 @@ func runChainCase(c chainCase, want chainWant) (*chainObs, error) {
 			break
 		}
 		if nd > 0 && (last.Mode == mAccept || last.Mode == mKickLater) {
-			conns := backends[last.Server].Conns()
-			if last.N < len(conns) {
-				bc := conns[last.N]
+			var bc *e2e.BackendConn
+			for _, x := range backends[last.Server].Conns() {
+				if x.N == last.N { // refused dials have a number but no connection
+					bc = x
+				}
+			}
+			if bc != nil {
 				st := bc.Stamps()
 				if st.JoinSendAt != 0 && pc > st.JoinSendAt && h.AwaitCurrentServer(player, last.Server, 0) && cl.Joins() > 0 {
 					key := fmt.Sprintf("%s#%d", last.Server, last.N)
@@ -835,6 +926,8 @@ func runE2EChains(r *lib.Run, n int) {
 		byOutcome  = map[string]int{}
 		dialsCmp   int
 		reasonsCmp int
+		joinBranch = map[string]int{}
+		reasonOpt  = map[string]int{}
 		chains     int
 		joins      int
 		next       atomic.Int64
@@ -854,13 +947,20 @@ func runE2EChains(r *lib.Run, n int) {
 					return
 				}
 				c := cases[i]
-				want := refChainE2E(c)
-				wit := map[string]any{"class": "e2e-chain", "case": c, "family": c.family(), "reference_dials": want.Dials, "reference_behaviour_of_each_connection": want.Modes,
-					"reference_outcome": want.Outcome, "reference_last_kick_reason": want.LastReason}
+				wants := refChainE2E(c)
+				maxDials := 0
+				var accepted []map[string]any
+				for _, w := range wants {
+					if len(w.Dials) > maxDials {
+						maxDials = len(w.Dials)
+					}
+					accepted = append(accepted, map[string]any{"dials": w.Dials, "behaviour_of_each_connection": w.Modes, "outcome": w.Outcome, "last_kick_reason": w.LastReason, "kick_right_after_join_read_as": w.JoinBranches})
+				}
+				wit := map[string]any{"class": "e2e-chain", "case": c, "family": c.family(), "reference_acceptable_executions": accepted}
 				r.LogCase(wit)
 				var ob *chainObs
 				var err error
-				okRet, pv := lib.Returns(3*e2e.Watchdog, func() { ob, err = runChainCase(c, want) })
+				okRet, pv := lib.Returns(3*e2e.Watchdog, func() { ob, err = runChainCase(c, maxDials) })
 				r.Eval(1)
 				if pv != nil {
 					r.Violation("e2e-chain:panic", fmt.Sprintf("panic: %v", pv), wit)
@@ -880,12 +980,36 @@ func runE2EChains(r *lib.Run, n int) {
 				wit["observed_outcome"] = ob.Outcome
 				wit["observed_disconnect"] = ob.Disconnect
 				if ob.TimedOut != "" {
-					r.Inconclusive(fmt.Sprintf("e2e-chain case %d: %s", i, ob.TimedOut))
+					cj, _ := json.Marshal(c)
+					r.Inconclusive(fmt.Sprintf("e2e-chain case %d: %s; observed dials %v, kick events %v; case %s", i, ob.TimedOut, got, ob.Kicks, cj))
 					continue
+				}
+				// the acceptable execution that agrees longest with what was observed
+				common := func(w chainWant) int {
+					k := 0
+					for k < len(got) && k < len(w.Dials) && got[k] == w.Dials[k] {
+						k++
+					}
+					if k == len(got) && k == len(w.Dials) {
+						k++ // same dials
+						if ob.Outcome == w.Outcome {
+							k++
+						}
+					}
+					return k
+				}
+				want := wants[0]
+				for _, w := range wants[1:] {
+					if common(w) > common(want) {
+						want = w
+					}
 				}
 				mu.Lock()
 				for _, m := range want.Modes {
 					byFamMode[c.family()+"/"+m]++
+				}
+				for _, b := range want.JoinBranches {
+					joinBranch[b]++
 				}
 				byLen[fmt.Sprint(len(c.List))]++
 				byOutcome[c.family()+"/"+strings.SplitN(want.Outcome, ":", 2)[0]]++
@@ -937,14 +1061,20 @@ func runE2EChains(r *lib.Run, n int) {
 					what = fmt.Sprintf("final outcome %q, the reference expects %q", ob.Outcome, want.Outcome)
 				}
 				if sig == "" && want.Outcome == "disconnected" && want.LastReason != "" {
+					has := strings.Contains(ob.Disconnect, want.LastReason)
 					mu.Lock()
-					reasonsCmp++
+					if want.ReasonOptional {
+						reasonOpt[map[bool]string{true: "kick-reason-present", false: "kick-reason-absent"}[has]]++
+					} else {
+						reasonsCmp++
+					}
 					mu.Unlock()
-					if !strings.Contains(ob.Disconnect, want.LastReason) {
+					if !has && !want.ReasonOptional {
 						sig = "e2e-chain:disconnect-lacks-the-kick-reason:" + want.Modes[len(want.Modes)-1] + ":" + c.family()
 						what = fmt.Sprintf("the client was disconnected with %q, which lacks the kick reason %q of the failure after which no server remained", ob.Disconnect, want.LastReason)
 					}
 				}
+				wit["reference_execution_compared"] = map[string]any{"dials": want.Dials, "outcome": want.Outcome, "last_kick_reason": want.LastReason}
 				if sig != "" {
 					r.Violation(sig, "fallback chain against real scripted backends: "+what, wit)
 				}
@@ -962,6 +1092,8 @@ func runE2EChains(r *lib.Run, n int) {
 	r.Count("e2e_chain_completed_joins", joins)
 	r.Count("e2e_chain_final_disconnect_texts_checked_for_the_kick_reason", reasonsCmp)
 	r.Set("e2e_chain_connections_by_family_and_backend_behaviour", byFamMode)
+	r.Set("e2e_chain_kick_right_after_join_with_closed_connection_read_by_gate_as", joinBranch)
+	r.Set("e2e_chain_final_disconnects_after_a_kick_with_closed_connection", reasonOpt)
 	r.Set("e2e_chain_cases_by_list_length", byLen)
 	r.Set("e2e_chain_cases_by_family_and_reference_outcome", byOutcome)
 }
